@@ -138,6 +138,12 @@ struct Variant {
     nb_windows: bool,
     blank: bool,
 }
+/// the variant the implementation was found to follow (set once by Env::new)
+static VARIANT: std::sync::OnceLock<Variant> = std::sync::OnceLock::new();
+fn followed() -> Variant {
+    *VARIANT.get().unwrap_or(&Variant::CURRENT)
+}
+
 impl Variant {
     const CURRENT: Variant = Variant { nb_windows: false, blank: false };
     fn digit(&self) -> usize {
@@ -264,6 +270,7 @@ impl Env {
         let mut group = LintGroup::new_curated(dict.clone(), Dialect::American);
         group.set_all_rules_to(Some(true));
         let detected = Variant::detect(&dict);
+        let _ = VARIANT.set(detected.unwrap_or(Variant::CURRENT));
         Env { dict, group, km: Default::default(), seen: Default::default(), collisions: 0, mirror_mismatch: 0, variant: detected.unwrap_or(Variant::CURRENT), variant_detected: detected.is_some(), c_cases: 0, x_cases: 0 }
     }
     fn document(&self, text: &str, lang: &str) -> Document {
@@ -402,7 +409,7 @@ fn text_of(doc: &Document, sp: Span) -> String {
 }
 
 /// Why is `l` (of `doc`) hidden although it is not "the same lint" as any ignored one?  A known class is
-/// only named when the MODEL of the code as it is (`Variant::CURRENT` windows) also gives both lints the
+/// only named when the MODEL of the context variant the implementation follows also gives both lints the
 /// same context — i.e. the failure is the modelled behaviour; anything else is `only_other`.
 fn classify_only(phase: &str, l: &Lint, doc: &Document, ignored: &[(Lint, Document)]) -> (&'static str, String, Value) {
     let nb = neighbourhood(l, doc);
@@ -412,7 +419,7 @@ fn classify_only(phase: &str, l: &Lint, doc: &Document, ignored: &[(Lint, Docume
     match culprit {
         Some((i, d)) if same_report(i, l) => {
             let (ni, nl) = (neighbourhood(i, d), nb.clone());
-            let modelled = Variant::CURRENT.mirror(i, d).1 == Variant::CURRENT.mirror(l, doc).1;
+            let modelled = followed().mirror(i, d).1 == followed().mirror(l, doc).1;
             let diag = json!({"lint_len": len, "before_equal": ni.0 == nl.0, "flagged_equal": ni.1 == nl.1, "after_equal": ni.2 == nl.2,
                               "lint_start": l.span.start, "ignored_start": i.span.start, "same_context_in_the_model": modelled});
             let same_len = i.span.end - i.span.start == len;
@@ -585,8 +592,8 @@ fn run_scenario(rep: &mut Report, env: &mut Env, sc: &Scenario) {
         }
         let _ = same;
         // diagnose
-        let (ia, ib) = (mirror_indices(l, &doc), mirror_indices(l3, &doc3));
-        let (ma, mb) = (mirror_of(l, &doc, &ia), mirror_of(l3, &doc3, &ib));
+        let raw = Variant { nb_windows: env.variant.nb_windows, blank: false };
+        let (ma, mb) = (raw.mirror(l, &doc).1, raw.mirror(l3, &doc3).1);
         let blank_all = |m: &Mirror| m.tokens.iter().cloned().map(blank).collect::<Vec<_>>();
         // a quotation mark of the context whose twin_loc changed
         let twin_changed = ma.tokens.iter().zip(mb.tokens.iter()).any(|(x, y)| match (&x.kind, &y.kind) {
